@@ -11,7 +11,7 @@ RES = "/var/tmp/mutsweep_results.jsonl"
 ALL = [f"C{n:02d}" for n in range(1, 20)]
 def props_for(rel):
     if rel.startswith("internals/") or rel in ("observer.rs", "observable.rs", "subscription.rs"):
-        return ["C01", "C05", "C06", "C17", "C03", "C07", "C11", "C19", "C14"]
+        return ["C01", "C05", "C06", "C17", "C03", "C07", "C11", "C19", "C14", "C15", "C13"]
     if rel.startswith("subjects/"):
         return ["C10", "C12", "C13", "C06", "C07", "C19", "C17"]
     if rel.startswith("schedulers/"):
@@ -101,6 +101,8 @@ def run_one(args):
         if r.returncode == 2 and "build failed" in r.stderr:
             res['status'] = "does-not-compile"
             break
+        if r.returncode == 2:
+            res.setdefault('inconclusive', []).append(prop)
         if r.returncode == 1:
             res['status'] = "killed"
             res['killed_by'] = prop
@@ -108,7 +110,7 @@ def run_one(args):
             res['msg'] = msg[:300]
             break
     else:
-        res['status'] = "survived"
+        res['status'] = "inconclusive" if res.get('inconclusive') else "survived"
     shutil.rmtree(d, ignore_errors=True)
     return res
 
